@@ -273,6 +273,8 @@ class ProtoSubroutine:
         commands: List[Union[ICmd, BranchLabel]] = []
         for cmd in self.commands:
             if not isinstance(cmd, ICmd):
+                # Branch labels have no operands to fill in, but they stay part of the subroutine
+                commands.append(cmd)
                 continue
             ops: List[T_ProtoOperand] = []
             for op in cmd.operands:
